@@ -22,6 +22,7 @@ import DosModel.Proofs.Query
 import DosModel.Props.C13
 import DosModel.Gen.DosnodeConsts
 import DosModel.Gen.QueryLoopFacts
+import DosModel.Gen.ChainHandlerFacts
 
 namespace Dos.Props.C01
 open Dos Dos.Content Dos.Query
@@ -56,6 +57,117 @@ theorem c01_request_id_shape :
     ∧ Gen.QueryLoopFacts.registeredRequestId = "string(requestID)"
     ∧ Gen.QueryLoopFacts.registeredReply = "out" ∧ Gen.QueryLoopFacts.registeredCtx = "ctx" :=
   ⟨rfl, rfl, rfl, rfl, rfl, rfl, rfl⟩
+
+/-- **from the chain event to the pipeline** (regenerated from dosnode/dos_chain_handler.go,
+go/extract/chainhandler) = what `Query.requestOf` / `Query.onEvent` transcribe:
+* events reach `onchainLoop` from `d.chain.SubscribeEvent`;
+* `LogUpdateRandom` ↦ `handleQuery(requestID := LastRandomness, lastRand := LastRandomness, useSeed := nil, TrafficSystemRandom)`,
+  `LogRequestUserRandom` ↦ `(RequestId, LastSystemRandomness, UserSeed, TrafficUserRandom)`,
+  `LogUrl` ↦ `(QueryId, Randomness, nil, DataSource, Selector, TrafficUserQuery)`;
+* in all three the group id is `DispatchedGroupId` (hex text), the node acts only if
+  `isMember(groupID)` = it holds a share for THAT group, and member list, public polynomial and own
+  share are looked up under that same `groupID` (`groupInfo`; missing info ⇒ the event is skipped);
+* nothing de-duplicates events here (a re-delivered event starts a second pipeline; the chain
+  layer's `firstEvent`, C18, is what delivers each log once);
+* the traffic types are 0, 1, 2 = `Kind.ptype`. -/
+theorem c01_event_dispatch :
+    Gen.ChainHandlerFacts.eventSource = [
+      "d.onchainEvent, onchainEventErrc = d.chain.SubscribeEvent(subescriptions)",
+      "case event, ok := <-d.onchainEvent"]
+    ∧ Gen.ChainHandlerFacts.dispatch = [
+      "switch content := event.(type)",
+      "  case *onchain.LogGrouping",
+      "    groupID := fmt.Sprintf(\"%x\", content.GroupId)",
+      "    go d.handleGrouping(content.NodeId, groupID)",
+      "  case *onchain.LogGroupDissolve",
+      "    groupID := fmt.Sprintf(\"%x\", content.GroupId)",
+      "    if d.isMember(groupID)",
+      "      d.dkg.GroupDissolve(groupID)",
+      "  case *onchain.LogPublicKeyAccepted",
+      "    groupID := fmt.Sprintf(\"%x\", content.GroupId)",
+      "    if d.isMember(groupID)",
+      "  case *onchain.LogUpdateRandom",
+      "    randSeed = content.LastRandomness",
+      "    groupID := fmt.Sprintf(\"%x\", content.DispatchedGroupId)",
+      "    if d.isMember(groupID)",
+      "      groupID := fmt.Sprintf(\"%x\", content.DispatchedGroupId)",
+      "      ids, pub, sec, err := d.groupInfo(groupID)",
+      "      if err != nil",
+      "        continue",
+      "      go d.handleQuery(ids, pub, sec, groupID, content.LastRandomness, content.LastRandomness, nil, \"\", \"\", uint32(onchain.TrafficSystemRandom))",
+      "  case *onchain.LogRequestUserRandom",
+      "    randSeed = content.LastSystemRandomness",
+      "    groupID := fmt.Sprintf(\"%x\", content.DispatchedGroupId)",
+      "    if d.isMember(groupID)",
+      "      groupID := fmt.Sprintf(\"%x\", content.DispatchedGroupId)",
+      "      ids, pub, sec, err := d.groupInfo(groupID)",
+      "      if err != nil",
+      "        continue",
+      "      go d.handleQuery(ids, pub, sec, groupID, content.RequestId, content.LastSystemRandomness, content.UserSeed, \"\", \"\", uint32(onchain.TrafficUserRandom))",
+      "  case *onchain.LogUrl",
+      "    randSeed = content.Randomness",
+      "    groupID := fmt.Sprintf(\"%x\", content.DispatchedGroupId)",
+      "    if d.isMember(groupID)",
+      "      groupID := fmt.Sprintf(\"%x\", content.DispatchedGroupId)",
+      "      ids, pub, sec, err := d.groupInfo(groupID)",
+      "      if err != nil",
+      "        continue",
+      "      go d.handleQuery(ids, pub, sec, groupID, content.QueryId, content.Randomness, nil, content.DataSource, content.Selector, uint32(onchain.TrafficUserQuery))",
+      "  case *onchain.LogStartCommitReveal",
+      "    go d.handleCR(content, randSeed)"]
+    ∧ Gen.ChainHandlerFacts.groupInfo = [
+      "ids = d.dkg.GetGroupIDs(groupID)",
+      "pubPoly = d.dkg.GetGroupPublicPoly(groupID)",
+      "sec = d.dkg.GetShareSecurity(groupID)",
+      "if len(ids) == 0 || pubPoly == nil || sec == nil",
+      "  err = errors.New(\"No Group info\")",
+      "return"]
+    ∧ Gen.ChainHandlerFacts.isMember = [
+      "return d.dkg.GetShareSecurity(groupID) != nil"]
+    ∧ Gen.ChainHandlerFacts.handleQueryParams = [
+      "ids",
+      "pubPoly",
+      "sec",
+      "groupID",
+      "requestID",
+      "lastRand",
+      "useSeed",
+      "url",
+      "selector",
+      "pType"]
+    ∧ Gen.ChainHandlerFacts.trafficSystemRandom = Kind.sys.ptype
+    ∧ Gen.ChainHandlerFacts.trafficUserRandom = Kind.user.ptype
+    ∧ Gen.ChainHandlerFacts.trafficUserQuery = Kind.url.ptype :=
+  ⟨rfl, rfl, rfl, rfl, rfl, rfl, rfl, rfl⟩
+
+/-- an event for a group the node holds no share of is ignored; otherwise the node runs
+`handleQuery` on `requestOf` the event with THAT group's member list and keys -/
+theorem event_non_member_ignored (p a : Nat) (me : Bytes) (groups : Nat → Option GroupEntry) (ev : Event)
+    (fc : List (Option Msg)) (h : groups ev.gid = none) : onEvent p a me groups ev fc = none := by
+  simp [onEvent, h]
+
+theorem event_member_runs (p a : Nat) (me : Bytes) (groups : Nat → Option GroupEntry) (ev : Event)
+    (fc : List (Option Msg)) (g : GroupEntry) (h : groups ev.gid = some g) (hn : g.ids.length ≠ 0) :
+    onEvent p a me groups ev fc =
+      some (handleQuery g.C p a { ids := g.ids, me := me, signOwn := g.signOwn } (requestOf ev) fc) := by
+  simp [onEvent, h, hn]
+
+/-- what is signed for each event, as a function of the event's fields only: system randomness –
+32-byte big-endian `LastRandomness` ‖ submitter, submitter chosen by `LastRandomness`; user
+randomness – `RequestId ‖ LastSystemRandomness ‖ UserSeed` (each as `big.Int.Bytes()`) ‖ submitter,
+chosen by `LastSystemRandomness`; URL – selected document ‖ submitter, chosen by `Randomness`. -/
+theorem event_content (addr : Bytes) (last q seed rand g : Nat) (parsed : Bytes) :
+    contentFor 32 (requestOf (.updateRandom last g)) addr = some (natBE 32 last ++ addr)
+    ∧ (requestOf (.updateRandom last g)).last = last ∧ (requestOf (.updateRandom last g)).rid = last
+    ∧ contentFor 32 (requestOf (.requestUserRandom q last seed g)) addr
+        = some (natBytes q ++ natBytes last ++ natBytes seed ++ addr)
+    ∧ (requestOf (.requestUserRandom q last seed g)).last = last ∧ (requestOf (.requestUserRandom q last seed g)).rid = q
+    ∧ contentFor 32 (requestOf (.url q (some parsed) rand g)) addr = some (parsed ++ addr)
+    ∧ (requestOf (.url q (some parsed) rand g)).last = rand ∧ (requestOf (.url q (some parsed) rand g)).rid = q := by
+  refine ⟨?_, rfl, rfl, ?_, rfl, rfl, rfl, rfl, rfl⟩
+  · simp only [contentFor, requestOf, sysContent, sysContentRaw]
+    rw [padOrTrim_eq_natBE, beNat_natBytes]
+  · simp [contentFor, requestOf, userContent, userContentRaw]
 
 /-- **1. only the derived submitter reports.**  Whatever reaches a member (any messages, any
 number of valid shares), it reports only if its id is `ids[(lastRand mod 2^64) mod n]`. -/
